@@ -88,6 +88,19 @@ def cell_cover(rng):
         for v2 in vecs[:6] + vexprs[:2]:
             nodes.append(("dot", V.DotProduct(v, v2)))
         nodes.append(("dotself", V.DotProduct(v, v)))
+    # numeric types of the stored arrays: entries near the limits of narrow dtypes, so that any arithmetic the
+    # rules do in the array's own dtype (Q + Q.T, scaling) wraps; bool: `+` is logical or
+    for dt, big in (("uint8", 200), ("int8", 100), ("uint16", 60000), ("int16", 30000), ("int32", 2 ** 30),
+                    ("uint32", 2 ** 31 + 5), ("int64", 7), ("float32", 3.5), ("bool", 1)):
+        Qd = np.array([[big if i == j else (big // 2 if dt != "float32" else 1.25) * (1 if (i + j) % 2 else 0) + (i < j)
+                        for j in range(n)] for i in range(n)]).astype(dt)
+        cd = np.array([big, big // 2 if dt != "float32" else 0.5, 1][:n] + [1] * max(0, n - 3)).astype(dt)
+        for v in (U.x, U.x[::-1], U.x + 1.0):
+            nodes.append((f"qf:{dt}", M.QuadraticForm(v, Qd)))
+            nodes.append((f"lc:{dt}", V.LinearCombination(cd, v)))
+            nodes.append((f"dotmv:{dt}", V.DotProduct(U.y, M.MatrixVectorProduct(Qd, v))))
+        nodes.append((f"dotrw:{dt}", U.x.dot(Qd @ U.x)))
+        nodes.append((f"lc2:{dt}", 2 * (cd @ U.x) + (cd @ U.x) * 3))
     for v in views:
         nodes.append(("vs", V.VectorSum(v)))
         for k in [1, 2, 3, 0.5, -1, 2.5, 0]:
